@@ -18,6 +18,9 @@ RULE = ('complete product: scope_types in {none} + all 15 ordered non-empty '
         'enforcer (check objects that print alike with different scope types; '
         'enforce_scope switched between calls); case = one row; non-trivial = '
         'scope types declared.')
+RULE += (
+         ' Sequence (c): one RequestContext object re-scoped between calls,'
+         ' every ordered pair of token scopes.')
 ASSUMPTIONS = ['R-scope reference model below',
                'RequestContext cannot carry the legacy `system` key, so that '
                'spelling is only exercised with plain dict credentials']
@@ -184,6 +187,42 @@ def _sequences(acc, P, _parser, w, st):
                         {'scope_types': st, 'enforce_scope': on,
                          'sys': has_sys, 'dom': has_dom}, want, r, 'sequence')
                 acc.outcome('toggle-%s' % on)
+    # (c) ONE RequestContext object serves two calls and is re-scoped in
+    # between (a service re-using its context after a token exchange)
+    scopes3 = ((True, False), (False, True), (False, False))
+    for first, second in itertools.product(scopes3, repeat=2):
+        for how in ('name', 'object'):
+            enf = P.Enforcer(conf)
+            enf.register_default(P.RuleDefault(
+                'p', '@', scope_types=list(st) if st else None))
+            enf.load_rules()
+            ctx = make_creds('context', first[0], first[1],
+                             not (first[0] or first[1]), 'system_scope',
+                             'missing', 'r')
+            for step, (has_sys, has_dom) in enumerate((first, second, first)):
+                ctx.system_scope = 'all' if has_sys else None
+                ctx.domain_id = 'd1' if has_dom else None
+                ctx.project_id = None if (has_sys or has_dom) else 'p1'
+                if how == 'object':
+                    rule = _parser.parse_rule('@')
+                    rule.scope_types = list(st) if st else None
+                else:
+                    rule = 'p'
+                acc.ev()
+                r = world.decide(enf, rule, {}, ctx)
+                want = ('ok', ref(st, has_sys, has_dom, True, True) == 'allow')
+                acc.case('sequence', True)
+                if r != want:
+                    acc.violation(
+                        'sequence|rescoped-context|%s|got=%s' % (how, r[1]),
+                        'call %d with the same RequestContext object, now '
+                        '%s-scoped (before: %r): %r, expected %r (scope '
+                        'types %r)' % (step + 1, 'system' if has_sys else
+                                       'domain' if has_dom else 'project',
+                                       first, r, want, st),
+                        {'scope_types': st, 'first': first, 'second': second,
+                         'how': how}, want, r, 'sequence')
+                acc.outcome('rescoped-%s' % (want[1],))
     acc.sample('sequence', {'scope_types': st})
 
 
